@@ -60,6 +60,7 @@ func (s *SideRec) add(e Ev) {
 
 type Gates struct {
 	mu sync.Mutex
+	all bool // OpenAll was called: every gate, also one created later, is open
 	m  map[string]chan struct{}
 	at map[string]chan struct{}
 }
@@ -72,6 +73,9 @@ func (g *Gates) ch(name string) (chan struct{}, chan struct{}) {
 	if g.m[name] == nil {
 		g.m[name] = make(chan struct{})
 		g.at[name] = make(chan struct{})
+		if g.all {
+			close(g.m[name])
+		}
 	}
 	return g.m[name], g.at[name]
 }
@@ -102,6 +106,7 @@ func (g *Gates) Open(name string) {
 
 func (g *Gates) OpenAll() {
 	g.mu.Lock()
+	g.all = true
 	names := make([]string, 0, len(g.m))
 	for n := range g.m {
 		names = append(names, n)
